@@ -737,12 +737,11 @@ impl Env for Sim {
                 return;
             }
         }
-        // A guard dropped during unwinding takes no scheduling decision (a
-        // second panic here would abort the process); the decision happens at
-        // the operation boundary.
-        if !panicking {
-            self.yield_point("unlocked", 0);
-        }
+        // Also a guard dropped during unwinding is a scheduling point (a
+        // waiter may get in right after a panicking holder released the lock
+        // and before the rest of that holder's unwinding runs); `yield_point`
+        // never panics in a thread that is already unwinding.
+        self.yield_point(if panicking { "unlocked-unwinding" } else { "unlocked" }, 0);
     }
 
     fn lazy_force(&self, lazy: usize, initialised: bool) {
